@@ -38,7 +38,7 @@ TIERS = {
 PROBES = ["register_after_resolve", "priority_conflict", "priority_zero_after_positive", "detector_fault", "converter_fault",
           "base_fallback", "shortcut_attr", "threaded_run", "register_during_resolve_scan"]
 
-CLASSES = ["Base", "Mid", "Low", "Other", "WithMeta", "Marked", "Virt", "Short"]
+CLASSES = ["Base", "Mid", "Low", "Other", "WithMeta", "Marked", "MarkedF", "Virt", "Short"]
 
 
 def make_hierarchy():
@@ -75,6 +75,9 @@ def make_hierarchy():
     class Marked(Other):
         __marker__ = True
 
+    class MarkedF(Other):
+        __marker__ = ()       # the marker attribute is there, its value is falsy
+
     class AbcB(abc.ABC):
         pass
 
@@ -86,7 +89,7 @@ def make_hierarchy():
     class Short(Base):
         """carries the registries' shortcut attributes"""
     return {"Tagged": Tagged, "Base": Base, "Mid": Mid, "Low": Low, "Other": Other, "MetaX": MetaX, "WithMeta": WithMeta,
-            "Marked": Marked, "AbcB": AbcB, "Virt": Virt, "Short": Short}
+            "Marked": Marked, "MarkedF": MarkedF, "AbcB": AbcB, "Virt": Virt, "Short": Short}
 
 
 # ----------------------------------------------------------------------------- reference model
@@ -144,7 +147,7 @@ def gen_spec(rng):
     r = rng.random()
     spec = {"priority": rng.choice([-1, 0, 0, 0, 1, 2])}
     if r < 0.62:
-        spec["classes"] = rng.sample(["Base", "Mid", "Low", "Other", "Marked", "AbcB", "Virt", "WithMeta"], rng.choice([1, 1, 2]))
+        spec["classes"] = rng.sample(["Base", "Mid", "Low", "Other", "Marked", "MarkedF", "AbcB", "Virt", "WithMeta"], rng.choice([1, 1, 2]))
         spec["sub"] = rng.random() < 0.7
         if rng.random() < 0.12:
             spec["attr"] = "__marker__"
@@ -165,7 +168,7 @@ def generate(rng, tier):
     declared = 0
     for _ in range(n):
         r = rng.random()
-        t = rng.choice(["Base", "Mid", "Low", "Other", "Marked", "Virt", "WithMeta", "Short"])
+        t = rng.choice(["Base", "Mid", "Low", "Other", "Marked", "MarkedF", "Virt", "WithMeta", "Short"])
         if r < 0.38:
             tagn += 1
             op = {"op": "register", "spec": gen_spec(rng), "tag": "c%d" % tagn}
@@ -183,7 +186,7 @@ def generate(rng, tier):
                 ops.append({"op": "convert_field", "t": t})
             elif r < 0.92:
                 declared += 1
-                ops.append({"op": "declare", "t": t, "how": "list" if t == "WithMeta" else rng.choice(["list", "rule"]), "name": "D%d" % declared})
+                ops.append({"op": "declare", "t": t, "how": rng.choice(["list", "dictkey", "dictval", "opt", "dc"]) if t == "WithMeta" else rng.choice(["list", "rule", "dictkey", "dictval", "opt", "dc"]), "name": "D%d" % declared})
             elif declared:
                 ops.append({"op": "convert_declared", "name": "D%d" % rng.randint(1, declared)})
             else:
@@ -323,9 +326,17 @@ def do_op(w, op):
             return ["tag", getattr(r["f"], "tag", "?")]
         if k == "declare":
             t = H[op["t"]]
+            import typing
             if op["how"] == "list":
-                import typing
                 w.declared[op["name"]] = ("list", utype.Rule.parse_annotation(annotation=typing.List[t]))
+            elif op["how"] == "dictkey":
+                w.declared[op["name"]] = ("dictkey", utype.Rule.parse_annotation(annotation=typing.Dict[t, int]))
+            elif op["how"] == "dictval":
+                w.declared[op["name"]] = ("dictval", utype.Rule.parse_annotation(annotation=typing.Dict[str, t]))
+            elif op["how"] == "opt":
+                w.declared[op["name"]] = ("opt", utype.Rule.parse_annotation(annotation=typing.Optional[t]))
+            elif op["how"] == "dc":
+                w.declared[op["name"]] = ("dc", type("Held_" + op["name"], (utype.Schema,), {"__annotations__": {"f": t, "fs": typing.Tuple[t, ...]}, "fs": (), "__module__": "verif_c16", "__qualname__": "Held_" + op["name"]}))
             else:
                 w.declared[op["name"]] = ("rule", type("R_" + op["name"], (t, utype.Rule), {}))
             return ["declared"]
@@ -334,6 +345,19 @@ def do_op(w, op):
             if how == "list":
                 r = utype.type_transform([5], T)
                 return ["tag", getattr(r[0], "tag", "?")]
+            if how == "dictkey":
+                r = utype.type_transform({5: 1}, T)
+                return ["tag", getattr(list(r)[0], "tag", "?")]
+            if how == "dictval":
+                r = utype.type_transform({"k": 5}, T)
+                return ["tag", getattr(r["k"], "tag", "?")]
+            if how == "opt":
+                r = utype.type_transform(5, T)
+                return ["tag", getattr(r, "tag", "?")]
+            if how == "dc":
+                r = T(f=5, fs=[5])
+                tags = {getattr(r["f"], "tag", "?"), getattr(r["fs"][0], "tag", "?")}
+                return ["tag", tags.pop() if len(tags) == 1 else "mixed:" + "/".join(sorted(map(str, tags)))]
             r = T(5)
             return ["tag", getattr(r, "tag", "?")]
         if k == "encode":
